@@ -181,7 +181,9 @@ func ElideError(err error) string {
 	case *net.UnknownNetworkError:
 		return "unknown network " + elidedAddr
 	case *net.OpError:
-		return t.Op + ": " + t.Err.Error()
+		// The wrapped error may itself carry an address (eg: a DNSError or
+		// AddrError from a failed dial), so it must be scrubbed as well.
+		return t.Op + ": " + ElideError(t.Err)
 	default:
 		// For unknown error types, do the conservative thing and only log the
 		// type of the error instead of assuming that the string representation
